@@ -73,6 +73,7 @@ class Cluster:
   def __init__(self, mods, n_workers, *, prefetch=2, call_timeout=20.0, heartbeat_threshold=90.0, iterate_batch_size=1):
     _RUN[0] += 1
     self.mods = mods
+    self._prefetch = prefetch
     self.names = [f'w{i + 1}-r{_RUN[0]}' for i in range(n_workers)]
     self.servers = []
     for name in self.names:
@@ -89,6 +90,19 @@ class Cluster:
   def kill(self, worker_index):
     with fakecourier.BOARD.lock:
       fakecourier.BOARD.dead.add(self.names[worker_index])
+
+  def restart(self, worker_index):
+    """The worker rejoins: a NEW server (as a new process would be) under the same address."""
+    name = self.names[worker_index]
+    old = self.servers[worker_index]
+    try:
+      old._request_shutdown()
+    except Exception:  # pylint: disable=broad-exception-caught
+      pass
+    s = self.mods.courier_server.PrefetchedCourierServer(name, prefetch_size=self._prefetch)
+    s.start()            # Start() of the transport clears the dead mark of the address
+    self.servers[worker_index] = s
+    return s
 
   def close(self):
     for s in self.servers:
